@@ -139,6 +139,37 @@ func runC08(tier string, _ []string) int {
 			}
 			return
 		}
+		// a barrier before the write phase: every client has been handed a begin marker written to its node, so
+		// that whatever the set-up wrote (and the bus may still be delivering on a busy machine) lies before it
+		for _, vn := range vnodes {
+			if e, err := d.sendNode(vn, data.Points{{Type: "vbegin", Time: d.now(), Text: "begin-" + vn, Origin: "marker-author"}}); err != nil || e != "" {
+				c.Violate("store:legal-write-refused", fmt.Sprint(err, e), v.wit(nil))
+				return
+			}
+		}
+		{
+			doneB := wd.Watch("client-delivery:marker-not-delivered", v.wit(nil), 60*time.Second, true)
+			for {
+				evs := v.mon.snapshot()
+				got := map[int64]bool{}
+				for _, e := range evs {
+					if e.Kind == "points" && len(e.Points) == 1 && e.Points[0].Type == "vbegin" {
+						got[e.Client] = true
+					}
+				}
+				all := true
+				for _, cl := range runningClients(evs) {
+					if !got[cl[0].Client] {
+						all = false
+					}
+				}
+				if all {
+					break
+				}
+				time.Sleep(2 * time.Millisecond)
+			}
+			doneB()
+		}
 		startSeq := v.mon.mark("writes-begin")
 		// ---- write phase
 		var sent []sentBatch
@@ -289,6 +320,10 @@ func runC08(tier string, _ []string) int {
 			time.Sleep(2 * time.Millisecond)
 		}
 		done()
+		// (what the comparison looks at is taken once more after a short pause: the markers close the streams,
+		// the monitor's list is read when nothing is being added to it)
+		time.Sleep(150 * time.Millisecond)
+		evs = v.mon.snapshot()
 		// ---- per client comparison
 		for key, cl := range running {
 			cfg := *cl[0].Config
